@@ -88,6 +88,19 @@ def gen_c15(rng: random.Random, sid: str, thorough: bool) -> dict:
         if k % 25 == 10:
             # keep a lookup waiting for records throughout the stream
             steps.append({'op': 'lookup', 'type': REMOTE_T, 'name': 'Lost._http._tcp.local.', 'timeout': rng.choice([3000, 10000])})
+        if rng.random() < 0.04:
+            # well-formed queries only, but many of them inside and just after one aggregation window (the same question again and
+            # again, then another one): the answer queues are emptied, merged and re-armed in every order
+            offs = sorted(rng.sample([0, 5, 30, 100, 380, 450, 460, 481, 490, 499, 505, 940, 950, 990, 1010], rng.choice([3, 4, 5, 6])))
+            t += rng.choice([0, 300, 1200])
+            names = [(sp['type'], wire.T_PTR) for sp in svcs] + [(rf.ENUM, wire.T_PTR), (svcs[0]['name'], wire.T_TXT)]
+            same = rng.choice(names)
+            for j, off in enumerate(offs):
+                qn, qt = same if j < len(offs) - 1 and rng.random() < 0.8 else rng.choice(names)
+                steps += [{'op': 'at', 't': t + off}, {'op': 'query', 'qs': [{'name': qn, 'type': qt, 'sp': 0, 'qu': False}], 'qid': rng.randint(0, 65535),
+                                                     'src': rng.choice(['10.0.0.9', '10.0.0.23'])}]
+            t += offs[-1]
+            continue
         if r < 0.06:
             # a query with the TC bit (held back 400-500 ms for its continuation) followed, or not, by more traffic from the
             # same address while it is held
@@ -128,6 +141,11 @@ def gen_c15(rng: random.Random, sid: str, thorough: bool) -> dict:
     sp = svcs[0]
     steps += [{'op': 'at', 't': t}, {'op': 'query', 'qs': [{'name': sp['type'], 'type': wire.T_PTR, 'sp': 0, 'qu': False}], 'qid': 4242,
                                      'port': 40404, 'src': '10.0.0.77', 'tag': 'canary'}]
+    # ... and a plain multicast question from the mDNS port: the answer must go out by multicast (aggregated, or a second later
+    # when the record was just multicast in the reply to the legacy query)
+    t += 1500
+    steps += [{'op': 'at', 't': t}, {'op': 'query', 'qs': [{'name': sp['type'], 'type': wire.T_PTR, 'sp': 0, 'qu': False}], 'qid': 0, 'src': '10.0.0.78'}]
+    steps += [{'op': 'at', 't': t + 1300}, {'op': 'expect_mc', 'rec': rf.rec_of(sp, 'ptr'), 'since': t}]
     t += 1500
     steps += [{'op': 'at', 't': t}, {'op': 'resp', 'recs': [
         {'rec': [REMOTE_T, wire.T_PTR, 1, CANARY], 'ttl': 4500},
@@ -140,7 +158,7 @@ def gen_c15(rng: random.Random, sid: str, thorough: bool) -> dict:
     steps.append({'op': 'at', 't': t})
     layout = rng.choice(['single', 'split', 'dual'])
     # on the dual-stack layout the peers are IPv6 hosts (4-tuple source addresses with a scope id) most of the time
-    return {'id': sid, 'seed': rng.randint(0, 10 ** 9), 'steps': steps, 'layout': layout, 'rand': None,
+    return {'id': sid, 'seed': rng.randint(0, 10 ** 9), 'steps': steps, 'layout': layout, 'rand': rng.choice([None, None, 'lo', 'hi']),
             'v6src': layout == 'dual' and rng.random() < 0.7}
 
 
